@@ -2396,6 +2396,7 @@ impl XmlElement {
     }
 
     pub fn append_attribute(&mut self, attr: Rc<XmlItem>) {
+        attr.set_parent_id(Some(self.id()));
         self.attributes.push(attr);
         self.context.invalidate_order();
     }
@@ -2435,6 +2436,7 @@ impl XmlElement {
         {
             self.attributes
                 .retain(|v| v.as_attribute().unwrap().borrow().local_name() != name);
+            v.set_parent_id(None);
             self.context.invalidate_order();
             Some(v)
         } else {
